@@ -14,7 +14,7 @@ use crate::dht::routing_maintenance::{
 };
 use crate::dht::trust_peer_selector::{TrustAwarePeerSelector, TrustSelectionConfig};
 use crate::network::NetworkSender;
-use crate::security::{IPDiversityConfig, IPDiversityEnforcer};
+use crate::security::{IPDiversityConfig, IPDiversityEnforcer, UnifiedIPAnalysis};
 use anyhow::{Context, Result, anyhow};
 use lru::LruCache;
 use serde::{Deserialize, Serialize};
@@ -463,11 +463,19 @@ impl GeographicDiversityEnforcer {
         *self.region_counts.entry(region).or_insert(0) += 1;
     }
 
-    fn _remove(&mut self, region: GeographicRegion) {
+    fn remove(&mut self, region: GeographicRegion) {
         if let Some(count) = self.region_counts.get_mut(&region) {
             *count = count.saturating_sub(1);
         }
     }
+}
+
+/// What a listed peer holds in the diversity enforcers: exactly what `add_node` recorded
+/// for it, so that exactly that is given back when the peer leaves the routing table.
+#[derive(Default)]
+struct DiversitySlots {
+    ip: Option<UnifiedIPAnalysis>,
+    region: Option<GeographicRegion>,
 }
 
 /// DHT query timeout duration
@@ -536,6 +544,8 @@ pub struct DhtCoreEngine {
     ip_diversity_enforcer: Arc<RwLock<IPDiversityEnforcer>>,
     eviction_manager: Arc<RwLock<EvictionManager>>,
     geographic_diversity_enforcer: Arc<RwLock<GeographicDiversityEnforcer>>,
+    /// Diversity slots held by each peer admitted through `add_node`
+    diversity_slots: Arc<RwLock<HashMap<NodeId, DiversitySlots>>>,
 
     // Network query components
     /// Transport handle for sending messages to remote peers
@@ -609,6 +619,7 @@ impl DhtCoreEngine {
             ip_diversity_enforcer,
             eviction_manager,
             geographic_diversity_enforcer,
+            diversity_slots: Arc::new(RwLock::new(HashMap::new())),
             transport: None,
             pending_requests: Arc::new(RwLock::new(LruCache::new(
                 NonZeroUsize::new(MAX_PENDING_DHT_REQUESTS)
@@ -1222,9 +1233,8 @@ impl DhtCoreEngine {
 
     /// Handle node failure
     pub async fn handle_node_failure(&mut self, failed_node: NodeId) -> Result<()> {
-        // Remove from routing table
-        let mut routing = self.routing_table.write().await;
-        routing.remove_node(&failed_node);
+        // Remove from routing table and give back the diversity slots the peer held
+        self.remove_and_release(&failed_node).await;
 
         // Schedule repairs for affected data
         let _replication = self.replication_manager.write().await;
@@ -1238,11 +1248,8 @@ impl DhtCoreEngine {
     /// This is called when a node fails security validation or is detected
     /// as malicious through Sybil/collusion detection.
     pub async fn evict_node(&self, node_id: &NodeId, reason: EvictionReason) -> Result<()> {
-        // 1. Remove from routing table
-        {
-            let mut routing = self.routing_table.write().await;
-            routing.remove_node(node_id);
-        }
+        // 1. Remove from routing table and give back the diversity slots the peer held
+        self.remove_and_release(node_id).await;
 
         // 2. Update security metrics based on eviction reason
         let reason_str = match &reason {
@@ -1326,6 +1333,34 @@ impl DhtCoreEngine {
         self.close_group_validator.clone()
     }
 
+    /// Remove a peer from the routing table and give back the diversity slots it held.
+    async fn remove_and_release(&self, node_id: &NodeId) {
+        {
+            let mut routing = self.routing_table.write().await;
+            routing.remove_node(node_id);
+        }
+        let held = self.diversity_slots.write().await.remove(node_id);
+        if let Some(slots) = held {
+            self.release_slots(slots).await;
+        }
+    }
+
+    /// Give recorded diversity slots back to the enforcers.
+    async fn release_slots(&self, slots: DiversitySlots) {
+        if let Some(analysis) = slots.ip {
+            self.ip_diversity_enforcer
+                .write()
+                .await
+                .remove_unified(&analysis);
+        }
+        if let Some(region) = slots.region {
+            self.geographic_diversity_enforcer
+                .write()
+                .await
+                .remove(region);
+        }
+    }
+
     /// Add a node to the DHT with security checks
     pub async fn add_node(&mut self, node: NodeInfo) -> Result<()> {
         // 1. Security Check: Close Group Validator
@@ -1337,6 +1372,18 @@ impl DhtCoreEngine {
                 return Err(anyhow::anyhow!("Node failed close group validation"));
             }
         }
+
+        // The local node is never listed, so it takes no diversity slots either.
+        if node.id == self.node_id {
+            return Ok(());
+        }
+
+        // A peer that is listed already gives its slots back first and is admitted afresh
+        // for the address it is presented with now: no peer is ever counted twice.
+        self.remove_and_release(&node.id).await;
+
+        // Slots taken so far; given back if a later step refuses the node.
+        let mut slots = DiversitySlots::default();
 
         // 2. Security Check: IP Diversity (both IPv4 and IPv6)
         {
@@ -1366,6 +1413,7 @@ impl DhtCoreEngine {
                             );
                             anyhow::anyhow!("IP diversity tracking failed: {e:?}")
                         })?;
+                        slots.ip = Some(analysis);
                     }
                     Err(e) => {
                         tracing::debug!("Could not analyze IP {:?}: {:?}", ip, e);
@@ -1393,17 +1441,25 @@ impl DhtCoreEngine {
                         ip,
                         region
                     );
+                    drop(enforcer);
+                    self.release_slots(slots).await;
                     return Err(anyhow::anyhow!(
                         "Geographic diversity limits exceeded for region {region:?} (IP: {ip})"
                     ));
                 }
                 enforcer.add(region);
+                slots.region = Some(region);
             }
         }
 
-        // 4. Add to routing table
-        let mut routing = self.routing_table.write().await;
-        routing.add_node(node)?;
+        // 4. Add to routing table; a refusal there (full bucket) consumes no slots
+        let node_id = node.id.clone();
+        let added = self.routing_table.write().await.add_node(node);
+        if let Err(e) = added {
+            self.release_slots(slots).await;
+            return Err(e);
+        }
+        self.diversity_slots.write().await.insert(node_id, slots);
 
         // 5. Update Metrics
         // (Placeholder: Add metric for new node joining if available)
